@@ -271,7 +271,8 @@ func (w *world) checkSeq(ob *vh.ObservedBlock, i int, o *op, res *abci.ExecTxRes
 	for k, t := range took {
 		w.authority(t.c, t.caller, t.inAllow, fmt.Sprintf("height %d tx %d call %d: %s; tx_to=%s tx_data=%s", ob.Height, i, k+1, o.String(), o.Tx.To().Hex(), hexs(o.Tx.Data())), witness)
 	}
-	if w.wi == 0 && run.Get("sequence_txs")%41 == 1 {
+	w.seqTxs++
+	if w.wi == 0 && w.seqTxs%41 == 1 {
 		run.Sample(map[string]any{"op": o.String(), "shape": desc, "tx_ok": txOK, "gas_used": gasUsed, "logs": len(rc.Logs)})
 	}
 }
